@@ -115,7 +115,7 @@ Lemma safe_lock_loops fuel : forall t n lv (Q : bool -> lview -> Prop),
   (~ holds lv n -> Q true (with_held lv ((n, None) :: lv_held lv))) -> Q false lv ->
   safe t (lock_outer fuel n) lv Q /\ safe t (lock_inner fuel n) lv Q.
 Proof.
-  induction fuel as [|f IH]; intros t n lv Q Hn HT HF; split; cbn [lock_outer lock_inner Conc.safe]; auto.
+  induction fuel as [|f IH]; intros t n lv Q Hn HT HF; split; cbn [lock_outer lock_inner]; try (cbn [Conc.safe]; exact HF).
   - apply safe_xchg; [exact Hn| |].
     + cbn [vmark vok]. apply IH; auto.
     + intros Hfree. cbn [vmark vok Conc.safe]. apply HT. exact Hfree.
